@@ -13,7 +13,7 @@ func init() {
 	register(&propertyDef{
 		id:    "C12",
 		title: "a step reports a consistent life story under every interleaving",
-		rules: []ruleFunc{c12Traces, c12R5, c12R6, c12R7, c12R8, c12R10, c12R14, c12R16},
+		rules: []ruleFunc{c12Traces, c12R5, c12R6, c12R7, c12R8, c12R10, c12R14, c12R16, c12R17, c12R18},
 		decided: "typestate rules over ALL notification sequences the step goroutine's code can emit (path exploration of the loop-free run() call tree, every select case and unknown flag forked): declared stages in dependency order (R1), declared outputs (R2), " +
 			"no stage finished twice or both finished and failed (R3), exactly one completion preceded by state=finished (R4), every And-successor of a finished stage reported finished or impossible (R9); closers mark closed first and wait (R5); every input hand-over is once-guarded and cannot block (R6); " +
 			"every channel that is closed has its sends and its close under one mutex with a marker test (R7); stage/state writes hold the step lock (R8). Shared: step goroutines are registered with the wait group before they start, so nothing is notified after Close/ForceClose returned (R10 = C05.R3). No goroutine counted in a step's WaitGroup waits on that group (R14).",
@@ -442,4 +442,153 @@ func c12R14(c *Ctx) {
 		})
 	}
 	c.minCount(rule, "goroutines counted in a step's WaitGroup", n, 3)
+}
+
+// C12.R17 an output id that comes from the plugin is checked against the declared outputs before it is reported.
+func c12R17(c *Ctx) {
+	const rule = "C12.R17"
+	c.explain("C12.R17 the only output id the plugin step does not choose itself is the one the running plugin returns (the OutputID of the ATP execution result). Every notification that carries it is made on the found edge of a comma-ok look-up of that id in the step schema's declared outputs (Outputs()): a plugin build that differs from the one whose schema was read at preparation would otherwise make the step report an output its lifecycle does not declare")
+	n := 0
+	for _, fn := range c.inPkgs(c.runFns(), pkgPlugin) {
+		eachInstr(fn, func(r instrRef) {
+			call, ok := r.I.(*ssa.Call)
+			if !ok {
+				return
+			}
+			fromResult := func(v ssa.Value) bool {
+				return derivesFrom(v, func(w ssa.Value) bool {
+					f := loadedField(w)
+					if f != nil && fieldName(f) == "OutputID" && strings.Contains(f.Pkg().Path(), "/atp") {
+						return true
+					}
+					// &result.OutputID
+					if fa, ok := w.(*ssa.FieldAddr); ok {
+						if fv := fieldAddrVar(fa); fv != nil && fieldName(fv) == "OutputID" && fv.Pkg() != nil && strings.Contains(fv.Pkg().Path(), "/atp") {
+							return true
+						}
+					}
+					return false
+				})
+			}
+			carries := false
+			for _, a := range call.Common().Args {
+				if _, isPtr := a.Type().Underlying().(*types.Pointer); isPtr && fromResult(a) {
+					carries = true
+				}
+			}
+			if !carries {
+				return
+			}
+			// only calls that lead to a notification: the callee (transitively, same package) invokes the handler
+			notifies := false
+			for _, callee := range c.CG().Callees(call) {
+				if pkgPathOf(callee) != pkgPlugin {
+					continue
+				}
+				for _, g := range c.logicalBody(callee) {
+					eachInstr(g, func(r2 instrRef) {
+						if cc := callCommon(r2.I); cc != nil && cc.IsInvoke() && strings.HasSuffix(cc.Value.Type().String(), "internal/step.StageChangeHandler") {
+							notifies = true
+						}
+					})
+				}
+			}
+			if call.Common().IsInvoke() && strings.HasSuffix(call.Common().Value.Type().String(), "internal/step.StageChangeHandler") {
+				notifies = true
+			}
+			if !notifies {
+				return
+			}
+			n++
+			checked := guardedBy(call, true, func(cond ssa.Value) bool {
+				ex, ok := cond.(*ssa.Extract)
+				if !ok || ex.Index != 1 {
+					return false
+				}
+				lk, ok := ex.Tuple.(*ssa.Lookup)
+				if !ok || !lk.CommaOk || !fromResult(lk.Index) {
+					return false
+				}
+				return derivesFrom(lk.X, func(w ssa.Value) bool {
+					c2, ok := w.(*ssa.Call)
+					return ok && c2.Common().IsInvoke() && c2.Common().Method.Name() == "Outputs"
+				})
+			}) != nil
+			key := fmt.Sprintf("declared-output@%s#%d", c.fnName(fn), n)
+			c.verdict(checked, rule, key, c.instrPos(call), "the plugin's output id is reported only after it was found among the step's declared outputs",
+				"the output id returned by the running plugin is reported without having been looked up in the step's declared outputs: a plugin that returns an id its schema did not declare makes the step report an output its lifecycle does not have")
+		})
+	}
+	c.minCount(rule, "notifications that carry the plugin's output id", n, 1)
+}
+
+// C12.R18 every stage input with an effect is accepted once.
+func c12R18(c *Ctx) {
+	const rule = "C12.R18"
+	c.explain("C12.R18 every function that ProvideStageInput calls to take in a stage's input and that has an effect on the step (stores a field, sends, or calls the cancel signaller) is once-guarded: a boolean field is tested first — the second provision returns an error — and is set before the effect. (R6 checks the channel hand-overs in detail; this clause also covers the `cancelled` stage, whose input is not handed over through a channel)")
+	n := 0
+	for _, ps := range c.ifaceMethodImpls(pkgStep, "RunningStep", "ProvideStageInput") {
+		if pkgPathOf(ps) != pkgPlugin && pkgPathOf(ps) != pkgForeach {
+			continue
+		}
+		eachInstr(ps, func(r instrRef) {
+			call, ok := r.I.(*ssa.Call)
+			if !ok {
+				return
+			}
+			h := call.Common().StaticCallee()
+			if h == nil || h.Pkg != ps.Pkg || h.Signature.Recv() == nil || len(h.Blocks) == 0 {
+				return
+			}
+			// takes the input map
+			takesInput := false
+			for _, a := range call.Common().Args {
+				if mt, ok := a.Type().Underlying().(*types.Map); ok && mt.Key().String() == "string" {
+					takesInput = true
+				}
+			}
+			if !takesInput {
+				return
+			}
+			// effect: a store into a field of the receiver, a send, or a call of another method of the receiver
+			var flagStores []*types.Var
+			effect := false
+			c.eachInstrLogical(h, func(r2 instrRef) {
+				switch x := r2.I.(type) {
+				case *ssa.Store:
+					if fa, ok := x.Addr.(*ssa.FieldAddr); ok {
+						effect = true
+						if b, isB := constBool(x.Val); isB && b {
+							flagStores = append(flagStores, fieldAddrVar(fa))
+						}
+					}
+				case *ssa.Send:
+					effect = true
+				case *ssa.Select:
+					effect = true
+				}
+			})
+			if !effect {
+				return
+			}
+			n++
+			guarded := false
+			for _, fv := range flagStores {
+				fv := fv
+				eachInstr(h, func(r2 instrRef) {
+					ret, ok := r2.I.(*ssa.Return)
+					if !ok {
+						return
+					}
+					res := retResults(ret)
+					if len(res) >= 1 && !isNilConst(res[len(res)-1]) && guardedBy(ret, true, func(cond ssa.Value) bool { return loadedField(cond) == fv }) != nil {
+						guarded = true
+					}
+				})
+			}
+			c.verdict(guarded, rule, "once:"+c.fnName(h), c.pos(h.Pos()), "the input is accepted once: a second provision returns an error",
+				"the stage input taken in by "+c.fnName(h)+" is not once-guarded (no boolean field whose set state makes the function return an error): providing the same stage input twice is accepted, and its effect (a second cancel signal, say) happens twice")
+		})
+	}
+	c.minCount(rule, "stage inputs with an effect", n, 4)
 }
